@@ -13,7 +13,7 @@ func init() { evaluators["C16"] = evalC16 }
 
 // OptEntry is one option of the list handed to NewFunc (defaults) / Call.
 type OptEntry struct {
-	L        engine.Label `json:"l"`            // key; L.Spell is the spelling used for the name
+	L        engine.Label `json:"l"` // key; L.Spell is the spelling used for the name
 	Tok      int          `json:"tok"`
 	NilValue bool         `json:"nil,omitempty"` // Named(name, nil) / Typed(nil): must change nothing
 	// Join: this type-only, subtype-less entry is passed in the same
@@ -22,12 +22,12 @@ type OptEntry struct {
 }
 
 type C16Case struct {
-	Target engine.FuncSpec `json:"target"`
-	Opts   []OptEntry      `json:"opts"`
-	Split  int             `json:"split"`            // Opts[:Split] are NewFunc defaults, the rest Call options
-	NilOpt int             `json:"nilOpt"`           // -1, or position in the call options of a nil Arg
-	Perm   []int           `json:"perm,omitempty"`   // permutation applied to the de-duplicated list for the metamorphic check
-	ViaList bool           `json:"viaList,omitempty"` // construct the target with NewFuncList instead of NewFunc
+	Target  engine.FuncSpec `json:"target"`
+	Opts    []OptEntry      `json:"opts"`
+	Split   int             `json:"split"`             // Opts[:Split] are NewFunc defaults, the rest Call options
+	NilOpt  int             `json:"nilOpt"`            // -1, or position in the call options of a nil Arg
+	Perm    []int           `json:"perm,omitempty"`    // permutation applied to the de-duplicated list for the metamorphic check
+	ViaList bool            `json:"viaList,omitempty"` // construct the target with NewFuncList instead of NewFunc
 }
 
 func optKey(l engine.Label) string {
